@@ -1,5 +1,33 @@
 import DaskModel.Lemmas.Groupby
+import DaskModel.Lemmas.GroupbySets
+import DaskModel.Lemmas.GroupbyScan
 import DaskModel.Generated.GroupbyAggs
+import DaskModel.Generated.GroupbyCums
+import Mathlib.Tactic.Ring
+import Mathlib.Tactic.FieldSimp
+import Mathlib.Algebra.Order.Field.Rat
+/-!
+# C38 — groupby results equal pandas groupby
+
+Full statement (properties.jsonl): for any frame, partitioning and grouping keys, every groupby operation of dask equals
+pandas on the whole frame, for every split_out / shuffle method / sort / dropna / observed setting.
+
+What is proved here (for ALL frames, partitionings, split_every, hash functions; no size bound), on the model
+`Model/Groupby.lean` of the reduction algebra (pandas on one partition is the atom):
+
+* decomposable aggregations (sum/prod/min/max/first/last/count/size/mean/var/std): tree = flat = whole frame
+  (`groupby_agg_eq_global`), shuffle path at list level (`groupby_shuffle_rows_eq_global`), arrival order irrelevant for
+  commutative merges, relevant for first/last (`disk_first_refuted`); mean/var finalisers (`mean_state_is_moments`,
+  `var_state_is_moments`, `var_from_moments`);
+* nunique (`nunique_eq_global`); cumulative operations (`cumulative_eq_global`, instances cumsum/cumprod/cumcount);
+* the apply family after an order-preserving shuffle sees every group complete and in frame order (`shuffle_group_rows`);
+* idxmin/idxmax: the arg-min monoid is partition independent (`groupby_idxmin_spec`, `groupby_idxmax_spec`,
+  `argmin_is_minimum`), but dask's (idxmin, first) pair is NOT (`idx_current_is_first_partial`, `idx_current_refuted`).
+
+Not proved (validated by the correspondence harness only): list/dict/named specs and several keys (same algebra, wider
+frames), cov/corr, value_counts (= size over a pair key), transform/shift/ffill/bfill per-group functions, median, every
+NaN-key / categorical-key rule (dropna/observed), sort order of the result, and everything pandas does inside one partition.
+-/
 namespace Dask.C38
 open Dask.Groupby
 variable {V M : Type}
@@ -12,14 +40,31 @@ theorem groupby_agg_eq_global (op : M → M → M) (hassoc : ∀ a b c, op (op a
     treeReduce op k fuel (parts.map (chunk op inj)) = chunk op inj parts.flatten := by
   rw [treeReduce_eq_combine op hassoc k hk, combine_chunks op hassoc]
 
-/-- **split_out > 1 with an order-preserving (task) shuffle**: every group is aggregated in exactly one
-    output partition, `h key % n`, and there it gets the whole-frame aggregate. -/
-theorem groupby_shuffle_eq_global (op : M → M → M) (hassoc : ∀ a b c, op (op a b) c = op a (op b c))
+/-- **split_out > 1 with an order-preserving (task) shuffle**, list level: chunk every partition, ship the partial rows,
+    split every partial by `h key % n`, concatenate the pieces of output partition `p` in source order, aggregate: every
+    group is aggregated in exactly one output partition, `h key % n`, and gets the whole-frame aggregate there. -/
+theorem groupby_shuffle_rows_eq_global (op : M → M → M) (hassoc : ∀ a b c, op (op a b) c = op a (op b c))
+    (inj : V → Option M) (h : Nat → Nat) (n p k : Nat) (parts : List (List (Nat × V))) :
+    chunk op some (shuffleOut h n p (parts.map (partialRows op inj))) k =
+      if h k % n = p then chunk op inj parts.flatten k else none :=
+  Dask.Groupby.groupby_shuffle_rows_eq_global op hassoc inj h n p k parts
+
+/-- the closed form `shuffleReduce` used by older statements is that list-level pipeline -/
+theorem shuffle_closed_form (op : M → M → M) (hassoc : ∀ a b c, op (op a b) c = op a (op b c))
     (inj : V → Option M) (parts : List (List (Nat × V))) (h : Nat → Nat) (n p key : Nat) :
     shuffleReduce op h n (parts.map (chunk op inj)) p key =
-      if h key % n = p then chunk op inj parts.flatten key else none := by
+      chunk op some (shuffleOut h n p (parts.map (partialRows op inj))) key := by
+  rw [groupby_shuffle_rows_eq_global op hassoc]
   unfold shuffleReduce
   rw [combine_chunks op hassoc]
+
+/-- **apply / transform / shift / ffill / bfill / median after the shuffle**: with an order-preserving shuffle the rows of
+    group `k` arrive complete and in frame order in exactly one output partition (so any per-group function sees what
+    pandas shows it on the whole frame) -/
+theorem shuffle_group_rows (h : Nat → Nat) (n p k : Nat) (parts : List (List (Nat × V))) :
+    (shuffleOut h n p parts).filter (fun r => r.1 == k) =
+      if h k % n = p then parts.flatten.filter (fun r => r.1 == k) else [] :=
+  Dask.Groupby.shuffle_group_rows h n p k parts
 
 theorem foldl_perm {α β : Type} (f : β → α → β) (hf : ∀ b x y, f (f b x) y = f (f b y) x) {l₁ l₂ : List α}
     (p : l₁.Perm l₂) : ∀ b, l₁.foldl f b = l₂.foldl f b := by
@@ -55,9 +100,9 @@ theorem disk_first_refuted :
 theorem opFirst_assoc (a b c : Int) : opFirst (opFirst a b) c = opFirst a (opFirst b c) := rfl
 theorem opLast_assoc (a b c : Int) : opLast (opLast a b) c = opLast a (opLast b c) := rfl
 theorem opMin_assoc (a b c : Int) : opMin (opMin a b) c = opMin a (opMin b c) := by
-  unfold opMin; split <;> split <;> (try split) <;> (try split) <;> omega
+  unfold opMin; split <;> split <;> (try split) <;> omega
 theorem opMax_assoc (a b c : Int) : opMax (opMax a b) c = opMax a (opMax b c) := by
-  unfold opMax; split <;> split <;> (try split) <;> (try split) <;> omega
+  unfold opMax; split <;> split <;> (try split) <;> omega
 theorem opPair_assoc (a b c : Int × Int) : opPair (opPair a b) c = opPair a (opPair b c) := by
   simp [opPair, Int.add_assoc]
 theorem opTriple_assoc (a b c : Int × Int × Int) : opTriple (opTriple a b) c = opTriple a (opTriple b c) := by
@@ -68,6 +113,150 @@ theorem opTriple_assoc (a b c : Int × Int × Int) : opTriple (opTriple a b) c =
 theorem groupby_first (parts : List (List (Nat × Option Int))) (k : Nat) (hk : 0 < k) (fuel : Nat) :
     treeReduce opFirst k fuel (parts.map (chunk opFirst id)) = chunk opFirst id parts.flatten :=
   groupby_agg_eq_global opFirst opFirst_assoc id parts k hk fuel
+
+/-! ### finalisers of mean / var / std -/
+
+/-- the `(Σ, n)` state of `mean` over the non-NA values `vs` of a group -/
+theorem mean_state_is_moments (vs : List Int) (hne : vs ≠ []) :
+    fold1 opPair (vs.map fun v => some (v, (1 : Int))) = some (vs.sum, (vs.length : Int)) := by
+  induction vs with
+  | nil => exact absurd rfl hne
+  | cons v vs ih =>
+    cases vs with
+    | nil => simp [fold1, omerge]
+    | cons w ws =>
+      have := ih (by simp)
+      rw [List.map_cons, ← List.singleton_append, fold1_append opPair opPair_assoc, this]
+      simp only [fold1, List.foldl_cons, List.foldl_nil, omerge, opPair, List.sum_cons, List.length_cons]
+      congr 2
+      push_cast
+      omega
+
+/-- the `(n, Σ, Σ²)` state of `var`/`std` over the non-NA values `vs` of a group -/
+theorem var_state_is_moments (vs : List Int) (hne : vs ≠ []) :
+    fold1 opTriple (vs.map fun v => some ((1 : Int), v, v * v)) =
+      some ((vs.length : Int), vs.sum, (vs.map fun v => v * v).sum) := by
+  induction vs with
+  | nil => exact absurd rfl hne
+  | cons v vs ih =>
+    cases vs with
+    | nil => simp [fold1, omerge]
+    | cons w ws =>
+      have := ih (by simp)
+      rw [List.map_cons, ← List.singleton_append, fold1_append opTriple opTriple_assoc, this]
+      simp only [fold1, List.foldl_cons, List.foldl_nil, omerge, opTriple, List.sum_cons, List.length_cons,
+        List.map_cons]
+      congr 2
+      · push_cast; omega
+
+def sumQ (xs : List Int) : ℚ := (xs.map fun (x : Int) => (Int.cast x : ℚ)).sum
+def sumSqQ (xs : List Int) : ℚ := (xs.map fun (x : Int) => (Int.cast x : ℚ) * (Int.cast x : ℚ)).sum
+/-- Σ (x − m)² -/
+def devSq (m : ℚ) (xs : List Int) : ℚ :=
+  (xs.map fun (x : Int) => ((Int.cast x : ℚ) - m) * ((Int.cast x : ℚ) - m)).sum
+
+theorem devSq_expand (m : ℚ) (xs : List Int) :
+    devSq m xs = sumSqQ xs - 2 * m * sumQ xs + (xs.length : ℚ) * (m * m) := by
+  induction xs with
+  | nil => simp [devSq, sumSqQ, sumQ]
+  | cons x xs ih =>
+    simp only [devSq, sumSqQ, sumQ, List.map_cons, List.sum_cons, List.length_cons] at ih ⊢
+    rw [ih]
+    push_cast
+    ring
+
+/-- **var/std from the three moments** (`_var_agg`, `_finalize_var`): over exact rationals, `(Σx² − (Σx)²/n)/(n − ddof)` IS
+    the two-pass `Σ(x − mean)²/(n − ddof)`, for every non-empty group and every `ddof` -/
+theorem var_from_moments (xs : List Int) (ddof : ℚ) (hn : xs.length ≠ 0) :
+    (sumSqQ xs - sumQ xs * sumQ xs / xs.length) / (xs.length - ddof)
+      = devSq (sumQ xs / xs.length) xs / (xs.length - ddof) := by
+  rw [devSq_expand]
+  have h : (xs.length : ℚ) ≠ 0 := by exact_mod_cast hn
+  congr 1
+  field_simp
+  ring
+
+example : (sumSqQ [1, 2, 6] - sumQ [1, 2, 6] * sumQ [1, 2, 6] / 3) / (3 - 1) = 7 := by
+  norm_num [sumSqQ, sumQ]
+
+/-! ### nunique -/
+
+/-- **nunique**: per-partition `drop_duplicates`, `unique().explode()` at every inner level of the tree and `nunique()` at
+    the root count, for every group, the distinct non-NA values of the whole frame — for every partitioning and
+    `split_every ≥ 1` -/
+theorem nunique_eq_global (se : Nat) (hse : 0 < se) (fuel : Nat) (parts : List (List (Nat × Option Int))) :
+    nunique se fuel parts = nuniqueSpec parts.flatten :=
+  Dask.Groupby.nunique_eq_global se hse fuel parts
+
+example : nunique 2 5 [[(0, some 1), (1, some 2), (0, none)], [(0, some 1)], [(0, some 3), (1, none)]] 0 = 2 := by decide
+
+/-! ### idxmin / idxmax -/
+
+/-- what the state of the arg-min monoid means: a row of the group that holds the group's minimum -/
+theorem argmin_is_minimum (rows : List (Nat × (Option Int × Int))) (k : Nat) (m l : Int)
+    (h : chunk opArgmin idxInj rows k = some (m, l)) :
+    (k, (some m, l)) ∈ rows ∧ ∀ v l', (k, (some v, l')) ∈ rows → m ≤ v :=
+  chunk_argmin_spec rows k m l h
+
+example : chunk opArgmin idxInj [(0, (some 5, 10)), (0, (some 1, 11)), (1, (some 0, 12)), (0, (some 1, 13))] 0
+    = some (1, 11) := by decide
+
+/-- **what idxmin SHOULD be**: with `(value, label)` partials merged by "smaller value, earlier row on ties" the result is the
+    whole-frame arg-min (pandas' first occurrence) for every partitioning and tree shape -/
+theorem groupby_idxmin_spec (parts : List (List (Nat × (Option Int × Int)))) (k : Nat) (hk : 0 < k) (fuel : Nat) :
+    treeReduce opArgmin k fuel (parts.map (chunk opArgmin idxInj)) = chunk opArgmin idxInj parts.flatten :=
+  groupby_agg_eq_global opArgmin opArgmin_assoc idxInj parts k hk fuel
+
+theorem groupby_idxmax_spec (parts : List (List (Nat × (Option Int × Int)))) (k : Nat) (hk : 0 < k) (fuel : Nat) :
+    treeReduce opArgmax k fuel (parts.map (chunk opArgmax idxInj)) = chunk opArgmax idxInj parts.flatten :=
+  groupby_agg_eq_global opArgmax opArgmax_assoc idxInj parts k hk fuel
+
+/-- **what dask computes** (`IdxMin` = (idxmin, first)): the arg-min of the FIRST partition that holds a value of the group,
+    whatever the other partitions hold — for every `split_every` -/
+theorem idx_current_is_first_partial (op : Int × Int → Int × Int → Int × Int) (k : Nat) (hk : 0 < k) (fuel : Nat)
+    (parts : List (List (Nat × (Option Int × Int)))) (key : Nat) :
+    idxCurrent op k fuel parts key = (parts.map fun rows => chunk op idxInj rows key).findSome? id := by
+  unfold idxCurrent
+  rw [treeReduce_eq_combine opFirstP opFirstP_assoc k hk, combine_first, List.map_map]
+  rfl
+
+/-- … which is not the arg-min of the frame: group 0 = rows (5, label 0) | (1, label 1) in two partitions (DESIGN §6;
+    known finding `groupby:idxmin|idxmax:group-spans-partitions:first-partial-wins`) -/
+theorem idx_current_refuted :
+    ¬ ∀ (parts : List (List (Nat × (Option Int × Int)))),
+        idxCurrent opArgmin 8 9 parts = chunk opArgmin idxInj parts.flatten := by
+  intro h
+  have := congrFun (h [[(0, (some 5, 0))], [(0, (some 1, 1))]]) 0
+  revert this
+  decide
+
+/-! ### cumulative operations -/
+
+/-- **cumsum / cumprod / cumcount across partitions**: `cum_raw` of every partition, shifted by the value carried over from
+    the earlier partitions (`cum_last`, `_cum_agg_filled`, `_cum_agg_aligned`; absent or all-NA = initial), is the
+    cumulative operation over the whole frame — for every associative, commutative `op` with identity `e` -/
+theorem cumulative_eq_global (op : Int → Int → Int) (e : Int) (hassoc : ∀ a b c, op (op a b) c = op a (op b c))
+    (hcomm : ∀ a b, op a b = op b a) (hid : ∀ a, op e a = a) (parts : List (List (Nat × Option Int))) :
+    (cumDask op e parts).flatten = cumRaw op parts.flatten :=
+  cumDask_eq_global op e hassoc hcomm hid parts
+
+theorem cumsum_eq_global (parts : List (List (Nat × Option Int))) :
+    (cumDask (· + ·) 0 parts).flatten = cumRaw (· + ·) parts.flatten :=
+  cumulative_eq_global _ 0 Int.add_assoc Int.add_comm Int.zero_add parts
+
+theorem cumprod_eq_global (parts : List (List (Nat × Option Int))) :
+    (cumDask (· * ·) 1 parts).flatten = cumRaw (· * ·) parts.flatten :=
+  cumulative_eq_global _ 1 Int.mul_assoc Int.mul_comm Int.one_mul parts
+
+/-- cumcount: `_cumcount_aggregate(a, b) = a + b + 1` with initial −1, over a 0 for every row -/
+theorem cumcount_eq_global (parts : List (List (Nat × Option Int))) :
+    (cumDask opCount (-1) parts).flatten = cumRaw opCount parts.flatten :=
+  cumulative_eq_global _ (-1) (by intro a b c; simp only [opCount]; omega) (by intro a b; simp only [opCount]; omega)
+    (by intro a; simp only [opCount]; omega) parts
+
+example : cumDask (· + ·) 0 [[(0, some 1), (1, some 2), (0, none)], [(1, none)], [(0, some 3), (1, some 4), (0, some 5)]]
+    = [[some 1, some 2, none], [none], [some 4, some 6, some 9]] := by decide
+example : cumRaw opCount [(0, some 0), (1, some 0), (0, some 0), (0, some 0)] = [some 0, some 0, some 1, some 2] := by decide
 
 /-! ### the aggregation classes of the source, extracted on every run (`Generated/GroupbyAggs.lean`) -/
 
@@ -95,9 +284,29 @@ theorem extracted_aggregations_classified :
        ("Last", some "last"), ("Max", some "max"), ("Min", some "min"), ("Prod", some "mul"), ("Size", some "add"),
        ("Sum", some "add"), ("Tail", none), ("Unique", none), ("ValueCounts", none)] := by decide
 
+/-- the operation and identity of `cumulative_eq_global` that a `(chunk, aggregate, initial)` triple of the source denotes -/
+def classifyCum : String × String × Int → Option (String × Int)
+  | ("cumsum", "add", 0) => some ("add", 0)
+  | ("cumprod", "mul", 1) => some ("mul", 1)
+  | ("cumcount", "_cumcount_aggregate", -1) => some ("opCount", -1)
+  | _ => none
+
+/-- **the cumulative classes of the source are the three instances proved above** (`cumsum_eq_global`, `cumprod_eq_global`,
+    `cumcount_eq_global`): a change of a chunk, an aggregate or an initial value changes the generated table and breaks this -/
+theorem extracted_cumulatives_classified :
+    Dask.Generated.groupbyCums.map (fun e => (e.1, classifyCum (e.2.1, e.2.2.1, e.2.2.2))) =
+      [("GroupByCumcount", some ("opCount", -1)), ("GroupByCumprod", some ("mul", 1)), ("GroupByCumsum", some ("add", 0))] := by
+  decide
+
 /-! non-vacuity -/
 example : chunk opFirst id [(0, some 5), (1, none), (1, some 7), (0, some 2)] 1 = some 7 := by decide
 example : treeReduce (· + ·) 2 5 ([[(0, 1), (1, 2)], [(0, 3)], [(1, 4), (0, 5)]].map (chunk (· + ·) (fun v : Int => some v))) 0
     = some 9 := by decide
+
+example : combine (· + ·) [fun _ => some (1 : Int), fun _ => some 2] = combine (· + ·) [fun _ => some 2, fun _ => some 1] :=
+  commutative_arrival_order_irrelevant (· + ·) Int.add_assoc Int.add_comm _ _ (List.Perm.swap _ _ _)
+example : chunk (· + ·) (fun v : Int => some v)
+    (shuffleOut (fun k => k) 2 1 ([[(0, 1), (1, 2)], [(3, 3)], [(1, 4), (0, 5)]].map (partialRows (· + ·) (fun v : Int => some v)))) 1
+    = some 6 := by decide
 
 end Dask.C38
